@@ -89,6 +89,8 @@ _FUNCTION_VALUE_INFO_SUPPORTED_VERSION = (
 )
 _MULTI_DEVICE_SUPPORTED_VERSION = 11
 _QUANT_PARAMETER_TENSOR_NAMES_FIELD = "quant_parameter_tensor_names"
+_EXTERNAL_DATA_EXTRA_ENTRIES_FIELD = "external_data_extra_entries"
+_INTERPRETED_EXTERNAL_DATA_KEYS = frozenset({"location", "offset", "length"})
 _T = typing.TypeVar("_T", bound=Callable[..., Any])
 
 
@@ -1175,7 +1177,7 @@ def deserialize_tensor(
     # TODO: Sanitize base_path
     if proto.data_location == onnx.TensorProto.EXTERNAL:
         external_info = onnx.external_data_helper.ExternalDataInfo(proto)
-        return _core.ExternalTensor(
+        external_tensor = _core.ExternalTensor(
             external_info.location,
             offset=external_info.offset,
             length=external_info.length,
@@ -1186,6 +1188,16 @@ def deserialize_tensor(
             doc_string=_get_field(proto, "doc_string"),
             metadata_props=deserialize_metadata_props(proto.metadata_props),
         )
+        # Keep the external_data entries the IR does not interpret (e.g. "checksum", "basepath")
+        # so that they are written back unchanged by serialize_tensor_into
+        extra_entries = [
+            (entry.key, entry.value)
+            for entry in proto.external_data
+            if entry.key not in _INTERPRETED_EXTERNAL_DATA_KEYS
+        ]
+        if extra_entries:
+            external_tensor.meta[_EXTERNAL_DATA_EXTRA_ENTRIES_FIELD] = extra_entries
+        return external_tensor
     if proto.data_type == _enums.DataType.STRING:
         name = _get_field(proto, "name")
         doc_string = _get_field(proto, "doc_string")
@@ -2174,6 +2186,8 @@ def serialize_tensor_into(
                 entry = tensor_proto.external_data.add()
                 entry.key = k
                 entry.value = str(v)
+        for k, v in from_.meta.get(_EXTERNAL_DATA_EXTRA_ENTRIES_FIELD, ()):
+            tensor_proto.external_data.add(key=k, value=v)
     elif isinstance(from_, _core.StringTensor):
         tensor_proto.string_data.extend(from_.string_data())
     else:
